@@ -7,6 +7,8 @@ CONSTANTS
   Targets = {1, 2}
   DnsPort = {2, 8}
   Allowed = {1, 2}
+  Unsendable = {}
+  DisarmFirst = TRUE
   T = 2
   DNST = 4
   Slack = 0
@@ -19,6 +21,7 @@ CONSTANTS
   Fam <- TrFam
   DgAlpha <- TrDg
   RpAlpha <- TrRp
+  MidAlpha <- NoMid
   Sync = TRUE
   Ticks = {}
   MaxNow = 0
